@@ -19,7 +19,7 @@ def main():
     fixes = subprocess.run(['git', '-C', '/repo', 'log', '--format=%h %s', 'eba297e..HEAD'], capture_output=True, text=True).stdout
     hooks = [l.split()[0] for l in fixes.splitlines() if l.split(' ', 1)[1].startswith('verif-hook')]
     m = dict(version=1,
-             setup_cmd='cd lean && lake build',
+             setup_cmd='./setup.sh',
              hooks=dict(guard='MAHOTAS_VERIF', enable='MAHOTAS_VERIF=1 in the environment of the harness (hooks are compiled in and inert otherwise)',
                         baseline_off_cmd='cd /repo && /venv/bin/python setup.py build_ext --inplace -j16 >/dev/null 2>&1; env -u MAHOTAS_VERIF /venv/bin/python -m pytest -ra -q -p no:cacheprovider --timeout=900 --continue-on-collection-errors',
                         source_commits=hooks, add_only=True),
